@@ -16,6 +16,7 @@ import math
 import numpy
 
 from .core import Driver, frac
+from .c03_seq import _guarded
 
 # Input classes that are deliberately NOT generated (visible in the evidence as `excluded_input_classes`, in notes/C03.md).
 # W1 (kept event in no cell miscounted by the space-magnitude helper) and W2 (strict south latitude bound) of the first
@@ -97,6 +98,7 @@ def stated_filter(evs, min_edge, S, N):
     return e1
 
 
+@_guarded
 def check_qthelper(run, drv, pending, case):
     """one (quadtree region, magnitude edges, catalog) through both helpers"""
     from csep.core.regions import QuadtreeGrid2D
@@ -219,6 +221,7 @@ def _f(t):
 
 
 # =============================================================================================== (b), (c): Cartesian
+@_guarded
 def check_cart_helpers(run, drv, pending, case, region, cells, cell_of, edges, evs, cart_args):
     """`_bin_catalog_*` with the region's own arrays, the index methods and the dataframe columns"""
     from csep.core import regions
@@ -362,6 +365,7 @@ def check_idx(run, drv, pending, case, region, kind, cl, bl, e, evs, region_args
     pending.append(("idx", dict(case, bound=bound), q, (sidx, midx, df), dict(kind=kind, bound=bound)))
 
 
+@_guarded
 def check_quad_idx(run, drv, pending, case, region, cell_of, edges, evs):
     e = [float(x) for x in edges]
     b = numpy.asarray(region.bounds, dtype=float)
@@ -377,6 +381,7 @@ def check_quad_idx(run, drv, pending, case, region, cell_of, edges, evs):
 
 
 # =============================================================================================== (d) bounding-box view
+@_guarded
 def check_cartview(run, drv, pending, case):
     """GriddedForecast / GriddedDataSet .spatial_counts(cartesian=True) on a Cartesian lattice"""
     from . import c01
